@@ -838,6 +838,8 @@ def _classify_b(text, cursor, kind, detail):
     C18-F7  unterminated single-line f-string followed by a newline: the tolerant tokenizer loops for ever
     C18-F8  cursor between the backslash and the newline of a continuation inside a word: the prefix takes one
             character from behind the continuation
+    C18-F9  cursor inside the closing triple quote of a closed string (after its 1st or 2nd character): reported as
+            if it stood inside the string value
     """
     if kind.startswith("exception:AttributeError@lexer.py:handle_error_linecont") and re.match(r"^[ \t\x0c]*\\\n", text):
         return "C18-F5"
@@ -847,7 +849,19 @@ def _classify_b(text, cursor, kind, detail):
         return "C18-F7"
     if kind in ("prefix", "suffix") and cursor > 0 and text[cursor - 1:cursor + 1] == "\\\n":
         return "C18-F8"
+    if kind in ("prefix", "suffix") and _inside_closing_triple(text, cursor) and re.search(
+            r"closing_quote=(?:'\"\"\"'|\"'''\"), is_after_closing_quote=False", detail):
+        return "C18-F9"
     return None
+
+
+def _inside_closing_triple(text, cursor):
+    """The cursor stands after the first or second character of a run of three equal quote characters."""
+    for j in (1, 2):
+        t = text[cursor - j:cursor - j + 3] if cursor - j >= 0 else ""
+        if t in ("'''", '"""'):
+            return True
+    return False
 
 
 def _lexmsg_shape(text):
